@@ -29,7 +29,8 @@ BOUNDS = {
     'quick': {'pairs': 'independent; sharing a constant buffer; equal '
               'structure with different names; insertion-heavy in both',
               'recipes': 'shipped + selective per op'},
-    'thorough': {'pairs': 'same + 3 subgraphs', 'recipes': 'same + a16/mixed'},
+    'thorough': {'pairs': 'same + 3 subgraphs + 60 seeded pairs of random '
+                 'DAG subgraphs', 'recipes': 'same + a16/mixed'},
 }
 REACH = {'pair': ['compared']}
 DATA = np.array([[0.5, -1.0], [2.0, 0.25]], np.float32)
@@ -128,6 +129,27 @@ PAIRS_THOROUGH = {
     'three': ([(sg_mid_out, '_a'), (sg_gelu_fc, '_b'), (sg_concat, '_c')],
               False),
 }
+
+
+def _random_pairs(seed, n):
+  """Pairs of seeded random DAG subgraphs (thorough tier)."""
+  out = {}
+  for i in range(n):
+    def mk(j, i=i):
+      def f(mb, sfx, shared=None, j=j, i=i):
+        rng = np.random.default_rng(seed * 100003 + i * 7 + j)
+        return P.random_dag(rng, int(rng.integers(2, 5)), i, sfx=sfx, mb=mb,
+                            build=False)
+      return f
+    out[f'random{seed}_{i}'] = ([(mk(0), '_a'), (mk(1), '_b')], False)
+  return out
+
+
+def all_pairs(tier=None):
+  import os
+  d = {**PAIRS, **PAIRS_THOROUGH}
+  d.update(_random_pairs(int(os.environ.get('VERIF_SEED', '0')), 60))
+  return d
 
 
 def build(pair, only=None):
@@ -277,7 +299,7 @@ def pair_recipes(pair, tier):
 
 def job_pair(job):
   name, tier = job.args['pair'], job.args['tier']
-  pair = {**PAIRS, **PAIRS_THOROUGH}[name]
+  pair = all_pairs()[name]
   fam = pair_recipes(pair, tier)
   st = Stats()
   cands, inconc, samples = [], [], []
@@ -313,6 +335,8 @@ def jobs(tier, seed):
   pairs = dict(PAIRS)
   if tier == 'thorough':
     pairs.update(PAIRS_THOROUGH)
+    import os
+    pairs.update(_random_pairs(int(os.environ.get('VERIF_SEED', '0')), 60))
   for name, pair in pairs.items():
     names = list(pair_recipes(pair, tier))
     for i in range(0, len(names), 4):
@@ -324,7 +348,7 @@ def jobs(tier, seed):
 def replay(c):
   from ai_edge_quantizer import quantizer as quantizer_lib
   d = c['data']
-  pair = {**PAIRS, **PAIRS_THOROUGH}[d['pair']]
+  pair = all_pairs()[d['pair']]
   recipe = pair_recipes(pair, 'thorough')[d['recipe']]
   mbytes = build(pair)
   inp = flatbuffer_utils.read_model_from_bytearray(bytearray(mbytes))
